@@ -18,6 +18,7 @@ decided.  What is decided are the steps of the construction whose shape is a nec
 Not decided: that these steps yield the running-intersection property for all graphs (chordality + maximum-weight spanning tree theorem).
 """
 import ast
+import re
 
 from .C01 import check_fill_in, check_tree_connected
 from ..srcmodel import AnalysisError, U, calls_in, walk_shallow
@@ -277,6 +278,15 @@ def check_schedule(ctx):
         if elt == '((_g0_0,_g0_1),(_g0_1,_g1))' and gens == [(2, m), (0, 'self.tree.neighbors(_g0_1)')] and \
                 conds in (['_g1!=_g0_0'], ['_g0_0!=_g1']):
             ok = True
+        elif len(gens) == 2 and gens[0][0] == 0 and gens[0][1] in ('self.tree.nodes()', 'self.tree.nodes', 'self.tree', 'self.tree.nodes') and \
+                gens[1][0] == 2 and re.fullmatch(r'(itertools\.)?(permutations|combinations)\(self\.tree\.neighbors\(_g0\),2\)', gens[1][1]) and \
+                elt in ('((_g1_1,_g0),(_g0,_g1_0))', '((_g1_0,_g0),(_g0,_g1_1))') and not conds:
+            # third spelling, clique by clique: for every ORDERED pair (k, j) of distinct neighbours of i, k->i precedes i->j
+            if 'permutations' in gens[1][1]:
+                ok = True
+            else:
+                got = got + '  (combinations yields each pair of neighbours once: only one of "k->i before i->j" and "j->i before i->k" is ' \
+                            'recorded, so at a clique with three or more neighbours a message can leave before all its inputs have arrived)'
         elif gens == [(0, m), (0, m)] and elt == '(_g0,_g1)':
             pass          # the all-pairs form with other conditions: wrong relation, reported below
         elif any(isinstance(it, ast.Call) and isinstance(it.func, ast.Attribute) and it.func.attr == 'items' and
